@@ -7,11 +7,11 @@ COMMON_TB = [
 ]
 
 NOT_CLAIMED = {}
-FACT_PROPS = ["C03", "C06", "C07", "C11", "C12", "C13", "C15", "C16", "C19", "C20"]
+FACT_PROPS = ["C03", "C04", "C06", "C07", "C10", "C11", "C12", "C13", "C15", "C16", "C17", "C19", "C20"]
 
 PROPS = {
     "C17": dict(
-        lean_modules=["Swim.Props.C17"],
+        lean_modules=["Swim.Props.C17", "Swim.Props.GenTie.Keyring"],
         tests="^TestC17$",
         rule=("random NewKeyring + call sequences (1-24 calls over a pool of valid/invalid/duplicate/absent/primary keys) "
               "and random barrier-respecting rotation interleavings (2-6 nodes, with duplicate steps); "
@@ -26,7 +26,7 @@ PROPS = {
         explanation="Theorems: ring invariant over all call sequences, primary stability, refusal cases, rotation safety for every cluster size and interleaving; tie: differential run of the real Keyring against the model.",
     ),
     "C10": dict(
-        lean_modules=["Swim.Props.C10", "Swim.Props.C10Prefer"],
+        lean_modules=["Swim.Props.C10", "Swim.Props.C10Prefer", "Swim.Props.GenTie.Queue"],
         tests="^TestC10$",
         rule=("random sequences of 1-40 QueueBroadcast (named incl. empty name / unique / plain with subjects; sizes 0-40 incl. equal) / "
               "GetBroadcasts (overhead -1..3, limit -5..1400) / Prune (-1..5) / Reset / NumQueued with changing NumNodes and RetransmitMult 0-8, "
@@ -68,7 +68,7 @@ PROPS = {
         engine="step-harness",
     ),
     "C07": dict(
-        lean_modules=["Swim.Lemmas.Merge", "Swim.Props.C07", 'Swim.Model.Cluster', 'Swim.Props.Cluster', 'Swim.Props.Projection'],
+        lean_modules=["Swim.Lemmas.Merge", "Swim.Props.C07", 'Swim.Model.Cluster', 'Swim.Props.Cluster', 'Swim.Props.Projection', "Swim.Props.GenTie.State"],
         tests="^TestC07$",
         shards_quick=8,
         rule='random histories of 1-40 operations of every kind (claims, merges, timer callbacks incl. stale ones, reaping, UpdateNode, Leave, ageing); the event log of every step is replayed on the Members() view before the step and compared with Members() after it (names, address, metadata); non-trivial/distinct as C01',
@@ -107,7 +107,7 @@ PROPS = {
         engine="step-harness",
     ),
     "C11": dict(
-        lean_modules=['Swim.Model.Codec', 'Swim.Props.C11'],
+        lean_modules=['Swim.Model.Codec', 'Swim.Props.C11', "Swim.Props.GenTie.Codec"],
         tests="^TestC11$",
         rule='three families: (cmp) makeCompoundMessages/decode on generated message lists of 0-600 parts incl. 254-257 and 64 KiB boundary sizes, compared byte-exactly (length+digest) with the model; (dec) decodeCompoundMessage on truncated/mutated/random input compared byte-exactly; (pkt) a real sender packs its membership queue and user-delegate queue (0-80 membership, 0-700 tiny user messages) through gossip() or sendMsg() under random UDPBufferSize/label/encryption version/compression/peer protocol version, the packets are measured and fed to a real receiver; non-trivial = more than one part; distinct = distinct canonical lines',
         trusted_base=COMMON_TB + ["compression (compress/lzw), AES-GCM, CRC-32 and go-msgpack are opaque primitives: laws as theorem hypotheses, behaviour exercised end to end by the harness",
@@ -118,7 +118,7 @@ PROPS = {
         engine="codec-harness",
     ),
     "C12": dict(
-        lean_modules=['Swim.Model.Codec', 'Swim.Props.C11', 'Swim.Props.C16', 'Swim.Props.C12'],
+        lean_modules=['Swim.Model.Codec', 'Swim.Props.C11', 'Swim.Props.C16', 'Swim.Props.C12', "Swim.Props.GenTie.Codec"],
         tests="^TestC12$",
         rule='round trips on real sender/receiver pairs: best-effort user message (packet path), reliable user message (stream path, random fragmentation, up to 73 KB), and a full join (both directions of push/pull over an in-memory duplex stream with user state) under random label 0-255 / encryption none,v0,v1 / key size / compression / checksum; payload sizes around the 16-byte block boundaries, first payload byte drawn from the marker values; non-trivial = payload of at least 16 bytes',
         trusted_base=COMMON_TB + ["compression (compress/lzw), AES-GCM, CRC-32 and go-msgpack are opaque primitives: laws as theorem hypotheses, behaviour exercised end to end by the harness",
@@ -217,7 +217,7 @@ PROPS = {
         engine="step-harness+codec-harness",
     ),
     "C19": dict(
-        lean_modules=["Swim.Model.Acks", "Swim.Props.C19", 'Swim.Model.Handlers', 'Swim.Props.C19Table'],
+        lean_modules=["Swim.Model.Acks", "Swim.Props.C19", 'Swim.Model.Handlers', 'Swim.Props.C19Table', "Swim.Props.GenTie.Acks"],
         tests="^TestC19$",
         rule=("virtual-time scripts (testing/synctest) on a real node with a capturing transport: (probe) probeNode against a target with 0-4 relays "
               "of mixed protocol versions, IndirectChecks 0/1/3, initial health score 0-3, AwarenessMaxMultiplier 1/2/8, TCP fallback off / refused / "
@@ -229,7 +229,10 @@ PROPS = {
         assumptions=["processing time is zero in virtual time", "the window between map insertion and timer assignment in setAckHandler is below the model's granularity"],
         level_text=("Proof (partial on timing): answered-iff-own-ack-before-deadline, foreign/late acks and nacks are no-ops, score always within "
                     "[0,max-1] and moving only for the stated causes over every delta sequence, relay sends exactly one ack or (iff requested) one nack "
-                    "(Lean). Tied by exact virtual-time scripts on the real probeNode / handleIndirectPing / awareness code."),
+                    "(Lean); the score falls only when the ping left and its own acknowledgement arrived, whatever the transport did with the send "
+                    "(probeWithSend); pending-acknowledgement table as a state machine (every record discarded by its deadline, foreign numbers are "
+                    "no-ops); fact theorem: the sequence-number generator is one atomic step. Tied by exact virtual-time scripts on the real "
+                    "probeNode / handleIndirectPing / awareness code, refused-ping scripts, table scripts and a concurrent freshness run."),
         level_note="Partial: goroutine scheduling order at equal instants and real network timing are not modelled; observed only in virtual time.",
         engine="synctest-harness",
     ),
@@ -269,7 +272,7 @@ PROPS = {
         engine="cluster-simulator",
     ),
     "C04": dict(
-        lean_modules=['Swim.Model.Acks', 'Swim.Lemmas.Merge', 'Swim.Props.C19', 'Swim.Props.C18', 'Swim.Props.C04', 'Swim.Model.Cluster', 'Swim.Props.Cluster', 'Swim.Props.C04Cluster'],
+        lean_modules=['Swim.Model.Acks', 'Swim.Lemmas.Merge', 'Swim.Props.C19', 'Swim.Props.C18', 'Swim.Props.C04', 'Swim.Model.Cluster', 'Swim.Props.Cluster', 'Swim.Props.C04Cluster', "Swim.Props.GenTie.Acks"],
         tests="^TestC04(Cluster)?$",
         timeout_quick=400,
         shards_quick=4,
@@ -306,8 +309,8 @@ PROPS = {
                                   "the simulator transport (non-blocking delivery, latency/loss/duplication/partition injection, net.Pipe streams)",
                                   "math/rand target selection is seeded but goroutine scheduling is not fully deterministic: the recorded outcome is the replay artifact"],
         assumptions=["goroutine scheduling delays and real network timing are not modelled (virtual time)"],
-        level_text='Proof (partial): a stage model of the public API in which the only panic is the documented Leave-after-Shutdown and no call blocks, idempotence of Leave and Shutdown, the local record is never reaped; fact theorems regenerated from the source: Shutdown closes the transport first, every background loop selects on the shutdown channel, the list of go statements (Lean). Tied by API sequences on real nodes in virtual time with goroutine accounting.',
-        level_note='Partial: data races and lock-order deadlocks among real goroutines are sampled (virtual time, watchdogs), not proved; a mutex wait is not a durable block under synctest, so two overlapping Leave calls are not generated. Known finding: Members() hands out pointers into live state (race with aliveNode; race detector leg not part of the quick tier).',
+        level_text='Proof (partial): a stage model of the public API in which, at every stage where the node is a member of itself, the only panic is the documented Leave-after-Shutdown and no call blocks (C20_api_total_partial; the full statement is refuted by the witness LocalNode at the self-denied stage, a recorded finding; every other call is total there too), idempotence of Leave and Shutdown, the local record is never reaped; fact theorems regenerated from the source: Shutdown closes the transport first, every background loop selects on the shutdown channel, the list of go statements (Lean). Tied by API sequences on real nodes in virtual time with goroutine accounting.',
+        level_note='Partial: data races and lock-order deadlocks among real goroutines are sampled (virtual time, watchdogs), not proved; a mutex wait is not a durable block under synctest, so two overlapping Leave calls are not generated. Known finding C20-selfdenied-localnode: LocalNode() panics on a node whose configuration refuses its own address. Documented, not registered: Members() hands out pointers into live state (race with aliveNode; race detector leg not part of the quick tier).',
         engine="cluster-simulator",
     ),
 }
